@@ -1366,7 +1366,10 @@ class Executor:
         if isinstance(kv, VRef):
             o = self.obj(state, kv)
             if o.kind == "dict" and o.d is not None:
-                return dict(o.d)
+                opt = getattr(o, "opt", None) or {}
+                # a key held only on some paths is passed only on those paths
+                return {k: (OptKw(opt[k], v) if k in opt and not is_true(simp(opt[k])) else v) for k, v in o.d.items()
+                        if not (k in opt and is_false(simp(opt[k])))}
             if o.kind == "dict" and o.sym is not None:
                 return {"**": kv}
         if isinstance(kv, (VDyn, VOpaque)):
